@@ -230,30 +230,48 @@ def endsReg : STree → Bool
 def digitsOK (ds : Bytes) : Prop := ds ≠ [] ∧ (∀ c ∈ ds, isDigit c = true) ∧ ds.length ≤ 4300
 def signOK (sign : Bytes) : Prop := sign = [] ∨ sign = [43] ∨ sign = [45]
 
+theorem gap_spc : ∀ c : UInt8, (!isGapByte c || isSPC c) = true := forall_byte _ (by decide +kernel)
+
+/-- `#00` is not allowed in a name (7.3.5) -/
+def NameItem.nonzero : NameItem → Prop
+  | .raw _ => True
+  | .esc h l => hexCharVal h * 16 + hexCharVal l ≠ 0
+
+def nameOK (items : List NameItem) : Prop := ∀ i ∈ items, i.ok ∧ NameItem.nonzero i
+
 mutual
-/-- the spelling choices are conformant: separators are white space / comments; where a separator is
-    empty after a regular-character token, a delimiter follows (checked between neighbours);
-    even hex digit count (open finding); distinct UTF-8 keys -/
-def wf : STree → Prop
+/-- the spelling choices are conformant (ISO 32000-1 7.2–7.3): separators are white space / comments;
+    where a separator is empty after a regular-character token, a delimiter follows (checked between
+    neighbours); names without `#00`; hex strings of hex digits and white space; distinct UTF-8 keys.
+    `even = true` adds: even hex digit count (the domain of the tokenizer theorems, open finding). -/
+def wfE (even : Bool) : STree → Prop
   | .null g => sepOK g
   | .bool _ g => sepOK g
   | .int sign ds g => signOK sign ∧ digitsOK ds ∧ sepOK g
   | .real sign ip fp g => signOK sign ∧ (∀ c ∈ ip, isDigit c = true) ∧ (∀ c ∈ fp, isDigit c = true) ∧
       ¬ (ip = [] ∧ fp = []) ∧ sepOK g
-  | .name items g => (∀ i ∈ items, i.ok) ∧ sepOK g
+  | .name items g => nameOK items ∧ sepOK g
   | .str items g => (∀ i ∈ items, i.ok) ∧ chainOK items ∧ depthAfter 0 items = some 0 ∧ sepOK g
-  | .hex body g => (∀ c ∈ body, isHEX c = true ∨ isSPC c = true) ∧ (∃ n, (hexDigitsOf body).length = 2 * n) ∧ sepOK g
+  | .hex body g => (∀ c ∈ body, isHEX c = true ∨ isGapByte c = true) ∧
+      (even = true → ∃ n, (hexDigitsOf body).length = 2 * n) ∧ sepOK g
   | .ref ds g1 gs g2 g3 => digitsOK ds ∧ sepOK g1 ∧ g1 ≠ [] ∧ digitsOK gs ∧ sepOK g2 ∧ g2 ≠ [] ∧ sepOK g3
-  | .arr g0 items g1 => sepOK g0 ∧ wfList items ∧ sepOK g1
-  | .dict g0 es g1 => sepOK g0 ∧ wfEntries es ∧ sepOK g1 ∧
+  | .arr g0 items g1 => sepOK g0 ∧ wfListE even items ∧ sepOK g1
+  | .dict g0 es g1 => sepOK g0 ∧ wfEntriesE even es ∧ sepOK g1 ∧
       (keysOf (valueEntries es)).Nodup ∧ ∀ k ∈ keysOf (valueEntries es), utf8Valid k = true
-def wfList : List STree → Prop
+def wfListE (even : Bool) : List STree → Prop
   | [] => True
-  | t :: r => wf t ∧ wfList r ∧ (endsReg t = true → r ≠ [] → ∀ rest, isDW ((bytesList r ++ rest).headD 0) = true)
-def wfEntries : List (List NameItem × List SepItem × STree) → Prop
+  | t :: r => wfE even t ∧ wfListE even r ∧
+      (endsReg t = true → r ≠ [] → ∀ rest, isDW ((bytesList r ++ rest).headD 0) = true)
+def wfEntriesE (even : Bool) : List (List NameItem × List SepItem × STree) → Prop
   | [] => True
-  | (k, g, v) :: r => (∀ i ∈ k, i.ok) ∧ sepOK g ∧ (g = [] → ∀ rest, isDW ((bytesOf v ++ rest).headD 0) = true) ∧ wf v ∧ wfEntries r
+  | (k, g, v) :: r => nameOK k ∧ sepOK g ∧ (g = [] → ∀ rest, isDW ((bytesOf v ++ rest).headD 0) = true) ∧
+      wfE even v ∧ wfEntriesE even r
 end
+
+/-- conformant and inside the domain of the tokenizer theorems -/
+abbrev wf := wfE true
+abbrev wfList := wfListE true
+abbrev wfEntries := wfEntriesE true
 
 /-- a regular-run token followed by its separator -/
 theorem tok_sep {s : Bytes} {ts : List Token} (h : LexUnit s ts true) (g : List SepItem) (hg : sepOK g) :
@@ -291,14 +309,14 @@ mutual
     token sequence of its value. -/
 theorem lex_tree : ∀ (t : STree), wf t → LexUnit (bytesOf t) (ser (valueOf t)) (endsReg t)
   | .null g, h => by
-    simp only [wf] at h
+    simp only [wf, wfE] at h
     simp only [bytesOf, valueOf, ser, endsReg]
     have := unit_keyword 110 [117, 108, 108] alpha_null.1 alpha_null.2
     have u : LexUnit wNull [Token.kwd StackParser.kwNull] true := by
       simpa [kwTrue, kwFalse, wNull, StackParser.kwNull] using this
     exact tok_sep u g h
   | .bool b g, h => by
-    simp only [wf] at h
+    simp only [wf, wfE] at h
     simp only [bytesOf, valueOf, ser, endsReg]
     cases b with
     | true =>
@@ -310,31 +328,37 @@ theorem lex_tree : ∀ (t : STree), wf t → LexUnit (bytesOf t) (ser (valueOf t
       have u : LexUnit kwFalse [Token.bool false] true := by simpa [kwTrue, kwFalse] using this
       simpa using tok_sep u g h
   | .int sign ds g, h => by
-    simp only [wf] at h
+    simp only [wf, wfE] at h
     obtain ⟨hs, ⟨hne, hd, hlen⟩, hg⟩ := h
     simp only [bytesOf, valueOf, ser, endsReg]
     exact tok_sep (unit_int sign ds hs hne hd hlen) g hg
   | .real sign ip fp g, h => by
-    simp only [wf] at h
+    simp only [wf, wfE] at h
     obtain ⟨hs, hip, hfp, hne, hg⟩ := h
     simp only [bytesOf, valueOf, ser, endsReg]
     exact tok_sep (unit_real sign ip fp hs hip hfp hne) g hg
   | .name items g, h => by
-    simp only [wf] at h
+    simp only [wf, wfE] at h
     simp only [bytesOf, valueOf, ser, endsReg]
-    exact tok_sep (unit_name items h.1) g h.2
+    exact tok_sep (unit_name items (fun i hi => (h.1 i hi).1)) g h.2
   | .str items g, h => by
-    simp only [wf] at h
+    simp only [wf, wfE] at h
     obtain ⟨hok, hch, hbal, hg⟩ := h
     simp only [bytesOf, valueOf, ser, endsReg]
     exact free_sep (unit_string items hok hch hbal) g hg
   | .hex body g, h => by
-    simp only [wf] at h
-    obtain ⟨hb, ⟨n, hn⟩, hg⟩ := h
+    simp only [wf, wfE] at h
+    obtain ⟨hb, hev, hg⟩ := h
+    obtain ⟨n, hn⟩ := hev trivial
     simp only [bytesOf, valueOf, ser, endsReg]
-    exact free_sep (unit_hex body n hb hn) g hg
+    have hb' : ∀ c ∈ body, isHEX c = true ∨ isSPC c = true := by
+      intro c hc
+      rcases hb c hc with h | h
+      · exact Or.inl h
+      · have := gap_spc c; simp [h] at this; exact Or.inr this
+    exact free_sep (unit_hex body n hb' hn) g hg
   | .ref ds g1 gs g2 g3, h => by
-    simp only [wf] at h
+    simp only [wf, wfE] at h
     obtain ⟨⟨hne1, hd1, hl1⟩, hg1, hg1n, ⟨hne2, hd2, hl2⟩, hg2, hg2n, hg3⟩ := h
     simp only [bytesOf, valueOf, ser, endsReg]
     have u1 : LexUnit (ds ++ renderSep g1) [Token.int (intValue [] ds)] false := by
@@ -349,7 +373,7 @@ theorem lex_tree : ∀ (t : STree), wf t → LexUnit (bytesOf t) (ser (valueOf t
     have := LexUnit.append_free u1 (LexUnit.append_free u2 u3)
     simpa using this
   | .arr g0 items g1, h => by
-    simp only [wf] at h
+    simp only [wf, wfE] at h
     obtain ⟨hg0, hitems, hg1⟩ := h
     simp only [bytesOf, valueOf, ser, endsReg]
     have u0 := free_sep LexUnit.open_bracket g0 hg0
@@ -357,7 +381,7 @@ theorem lex_tree : ∀ (t : STree), wf t → LexUnit (bytesOf t) (ser (valueOf t
     have := LexUnit.append_free u0 u1
     simpa using this
   | .dict g0 es g1, h => by
-    simp only [wf] at h
+    simp only [wf, wfE] at h
     obtain ⟨hg0, hes, hg1, _, _⟩ := h
     simp only [bytesOf, valueOf, ser, endsReg]
     have u0 := free_sep LexUnit.dict_open g0 hg0
@@ -370,7 +394,7 @@ theorem lex_list : ∀ (ts : List STree) (g1 : List SepItem), wfList ts → sepO
   | [], g1, _, hg1 => by
     simpa [bytesList, valueList, serList] using free_sep LexUnit.close_bracket g1 hg1
   | t :: r, g1, h, hg1 => by
-    simp only [wfList] at h
+    simp only [wfList, wfListE] at h
     obtain ⟨ht, hr, hadj⟩ := h
     simp only [bytesList, valueList, serList]
     have u1 := lex_tree t ht
@@ -389,10 +413,10 @@ theorem lex_entries : ∀ (es : List (List NameItem × List SepItem × STree)) (
   | [], g1, _, hg1 => by
     simpa [bytesEntries, valueEntries, serEntries] using free_sep LexUnit.dict_close g1 hg1
   | (k, g, v) :: r, g1, h, hg1 => by
-    simp only [wfEntries] at h
+    simp only [wfEntries, wfEntriesE] at h
     obtain ⟨hk, hg, hgv, hv, hr⟩ := h
     simp only [bytesEntries, valueEntries, serEntries]
-    have uk := tok_sep (unit_name k hk) g hg
+    have uk := tok_sep (unit_name k (fun i hi => (hk i hi).1)) g hg
     have uv := lex_tree v hv
     have ur := lex_entries r g1 hr hg1
     -- what follows the value begins with `/` (next key) or `>` (end of the dictionary)
@@ -408,7 +432,7 @@ theorem lex_entries : ∀ (es : List (List NameItem × List SepItem × STree)) (
 end
 
 mutual
-theorem clean_tree : ∀ (t : STree), wf t → clean (valueOf t)
+theorem clean_tree {e : Bool} : ∀ (t : STree), wfE e t → clean (valueOf t)
   | .null _, _ => by simp [valueOf, clean]
   | .bool _ _, _ => by simp [valueOf, clean]
   | .int _ _ _, _ => by simp [valueOf, clean]
@@ -418,23 +442,23 @@ theorem clean_tree : ∀ (t : STree), wf t → clean (valueOf t)
   | .hex _ _, _ => by simp [valueOf, clean]
   | .ref _ _ _ _ _, _ => by simp [valueOf, clean]
   | .arr _ items _, h => by
-    simp only [wf] at h
+    simp only [wf, wfE] at h
     simp only [valueOf, clean]
     exact clean_list items h.2.1
   | .dict _ es _, h => by
-    simp only [wf] at h
+    simp only [wf, wfE] at h
     simp only [valueOf, clean]
     exact ⟨clean_entries es h.2.1, h.2.2.2.1, h.2.2.2.2⟩
-theorem clean_list : ∀ (ts : List STree), wfList ts → cleanList (valueList ts)
+theorem clean_list {e : Bool} : ∀ (ts : List STree), wfListE e ts → cleanList (valueList ts)
   | [], _ => by simp [valueList, cleanList]
   | t :: r, h => by
-    simp only [wfList] at h
+    simp only [wfList, wfListE] at h
     simp only [valueList, cleanList]
     exact ⟨clean_tree t h.1, clean_list r h.2.1⟩
-theorem clean_entries : ∀ (es : List (List NameItem × List SepItem × STree)), wfEntries es → cleanEntries (valueEntries es)
+theorem clean_entries {e : Bool} : ∀ (es : List (List NameItem × List SepItem × STree)), wfEntriesE e es → cleanEntries (valueEntries es)
   | [], _ => by simp [valueEntries, cleanEntries]
   | (k, g, v) :: r, h => by
-    simp only [wfEntries] at h
+    simp only [wfEntries, wfEntriesE] at h
     simp only [valueEntries, cleanEntries]
     exact ⟨clean_tree v h.2.2.2.1, clean_entries r h.2.2.2.2⟩
 end
